@@ -156,6 +156,7 @@ func checkC09(c *Ctx, r *Report) {
 	checkGeneratedIdentifiers(c, r)
 	checkDeclaredWhereCalled(c, r, "C09.e")
 	checkTypeSwitchArms(c, r, "C09.e")
+	ruleResultShapes(c, r, "C09.e", "core/metadata")
 	checkConversionArms(c, r, "C09.e")
 	// the Go type the templates spell for a parameter or result is the declared type's own string
 	// (a synthesized model name - `PageItem` for `Page[Item]` - is not a Go type of the user's package)
